@@ -59,4 +59,18 @@ CHECKS = {
         "assumptions": ["reference root: refmodel.SMTRoot over {prefix||H(key) -> H(value)} (DESIGN A.4)", "an invalid transaction ends the block (the engine drops the context)",
                         "hook effects (nonce increment in BeforeCommandExecute) are outside the command's snapshot, as in the real auth module"],
     },
+    "C14": {
+        "profile": "txpool", "pkg": "c14", "test": "TestC14", "level": "exploration",
+        "quick": {"workers": 8, "checks": 2500}, "thorough": {"workers": 14, "checks": 60000},
+        "timeout": {"quick": "20m", "thorough": "5h"},
+        "rule": "schedsim: the real pkg/txpool (Start loop, Add/Remove/Get*/reorg with its per-sender goroutines) under the deterministic kernel; per run 1-4 client tasks x 1-10 drawn operations "
+                "(add with nonce gaps, duplicates and replacement fees around MinReplacementFeeDifference; remove; get; getall; getprocessable; block-applied notification) over 1-3 senders, pool limit 1-8, per-sender limit 1-5, "
+                "a model verifier (account nonce: ok/pending/invalid + drawn invalid ids); every lock acquisition, go statement, select and the 500 ms promotion ticker is a scheduling decision drawn from the seed. "
+                "Index invariants are evaluated at every quiescent instant at which no pool lock is held; a stuck run or unfinished client calls are a liveness violation. distinct = distinct (schedule hash, history) pairs",
+        "real": ["pkg/txpool (txpool.go, txlist.go, heap.go, fee.go)"],
+        "stub": ["ABI verifier (model: account nonce per sender)", "p2p connection (records publishes)", "clock, goroutine scheduling, sync primitives (kernel)"],
+        "distinct_measure": "FNV-64 over the sequence of (scheduled task, park kind) decisions combined with the recorded operation history",
+        "assumptions": ["map iteration over perAccount is canonicalised (sorted keys) by the overlay so that the spawn order of reorg goroutines is a function of the seed",
+                        "the verifier never changes its answer for a transaction id except through the account nonce, which only grows"],
+    },
 }
